@@ -634,6 +634,14 @@ func (x *Exec) runLoop(spec *LoopSpec, ord int, label string, st *State, cond fu
 		}
 	}
 	after = x.mergeAll(append([]*State{after}, lc.continues...))
+	if after != nil && len(spec.Assert) > 0 {
+		sc1 := x.loopScope(after, n, scope)
+		for i, a := range spec.Assert {
+			t := x.evalSpecBool(a, sc1, after)
+			x.oblige(after, "assert", name+"/step-"+clauseName(a, i), t, n)
+			x.assume(after, t)
+		}
+	}
 	if after != nil {
 		after = post(after)
 	}
